@@ -28,7 +28,7 @@ M = [
  ("C13-shallow-shares-list", "C13", "src/fast_ticc/containers/model_state.py", "            clusters=list(self.clusters),", "            clusters=self.clusters,"),
  ("C13-revert-deepcopy-args", "C13", "src/fast_ticc/containers/arguments.py", "        new_copy.sparsity_weight = copy.deepcopy(self.sparsity_weight)\n", ""),
  ("C14-unseeded-donor-draw", "C14", "src/fast_ticc/cluster_maintenance.py", "    donated_point_indices = random.sample(range(len(available_point_ids)),\n                                          model.arguments.min_cluster_size)", "    donated_point_indices = [int(v) for v in np.random.default_rng().choice(len(available_point_ids), model.arguments.min_cluster_size, replace=False)]"),
- ("C14-init-depends-on-nproc", "C14", "src/fast_ticc/main_loop.py", "    current_model_state.arguments.print()\n", "    current_model_state.arguments.print()\n    if user_args.num_processors > 4:\n        np.random.random()\n"),
+ ("C14-init-depends-on-nproc", "C14", "src/fast_ticc/main_loop.py", "    current_model_state.arguments.print()\n", "    current_model_state.arguments.print()\n    if user_args.num_processors > 4:\n        import random as _r\n        _r.random()\n"),
  ("C16-T-is-input-rows", "C16", "src/fast_ticc/cluster_metrics.py", "    num_data_points = len(model.point_labels)\n", "    num_data_points = len(model.point_labels) + model.arguments.window_size - 1\n"),
  ("C16-threshold-ge", "C16", "src/fast_ticc/cluster_metrics.py", "        cluster_params[cluster_id] = np.sum(np.abs(trained_inverse_covariance) > threshold)", "        cluster_params[cluster_id] = np.sum(np.abs(trained_inverse_covariance) > threshold * 10)"),
  ("C16-params-once-per-cluster", "C16", "src/fast_ticc/cluster_metrics.py", "        if point_label != last_point_label:\n            non_zero_params += cluster_params[point_label]\n            last_point_label = point_label", "        if point_label != last_point_label:\n            non_zero_params += cluster_params.pop(point_label, 0)\n            last_point_label = point_label"),
@@ -45,7 +45,7 @@ M = [
  ("C20-typeerror-wrong-name", "C20", "src/fast_ticc/front_end.py", "array.  Did you mean to call ticc_joint_labels instead?", "array.  Did you mean to call ticc_labels instead?"),
  ("C15-fallback-prange-ignores-start", "C15", "src/fast_ticc/numba_guard.py", "    return range(*args, **kwargs)", "    return range(args[-1])"),
  ("C03-revert-stable-prox", "C03", "src/fast_ticc/admm/solver.py", "np.diag(np.where(d < 0, (4*rho) / (root - d), d + root))", "np.diag(d + root)"),
- ("C03-filter-le", "C03", "src/fast_ticc/graphical_lasso.py", "    small_element_indices = (filtered < epsilon) & (filtered > -epsilon)", "    small_element_indices = (filtered <= epsilon) & (filtered >= -epsilon)"),
+ ("C03-filter-le", "C03", "src/fast_ticc/graphical_lasso.py", "    small_element_indices = np.abs(filtered) < epsilon", "    small_element_indices = np.abs(filtered) <= epsilon"),
  ("C01-tie-wrong-stay-cost", "C01", "src/fast_ticc/cluster_label_assignment.py", "            if total_vals[arg_general_min] < total_vals[cluster] - label_switching_cost[i]:", "            if total_vals[arg_general_min] <= total_vals[cluster] - label_switching_cost[i] and i % 7 == 3:"),
  ("C02-matrix-branch-wrong-class", "C02", "src/fast_ticc/admm/solver.py", "            block_id, row, column, block_size, num_blocks\n        )", "            block_id, column, row, block_size, num_blocks\n        ) if block_id > 0 else unique_values.locations_index_slices(\n            block_id, row, column, block_size, num_blocks)"),
 ]
